@@ -63,6 +63,7 @@ type Sim struct {
 	sched    []uint16
 	pos      int
 	teardown atomic.Bool
+	inline   atomic.Bool
 	actors   map[int64]string
 
 	Listener *Listener
@@ -120,7 +121,15 @@ func (s *Sim) Teardown() {
 }
 
 // InTeardown reports whether parks pass through.
-func (s *Sim) InTeardown() bool { return s.teardown.Load() }
+func (s *Sim) InTeardown() bool { return s.teardown.Load() || s.inline.Load() }
+
+// Inline runs f on the scheduler goroutine with every park passing through (used when the
+// scheduler itself calls into hc while all other goroutines are quiescent).
+func (s *Sim) Inline(f func()) {
+	s.inline.Store(true)
+	defer s.inline.Store(false)
+	f()
+}
 
 // Count bumps a fault / probe counter.
 func (s *Sim) Count(name string) {
@@ -223,7 +232,7 @@ func (s *Sim) ActorName(conn int) string {
 
 // Park blocks the calling goroutine until the scheduler releases it.
 func (s *Sim) Park(kind, actor string, conn int, info string, enabled func() bool) {
-	if s.teardown.Load() {
+	if s.teardown.Load() || s.inline.Load() {
 		return
 	}
 	p := &Parked{Kind: kind, Actor: actor, Conn: conn, Enabled: enabled, ch: make(chan struct{}), Info: info}
